@@ -319,6 +319,42 @@ class _Inliner:
                 sub = getattr(st, fld, None)
                 if isinstance(sub, list) and sub and isinstance(sub[0], ast.stmt) and not isinstance(st, ast.FunctionDef):
                     setattr(st, fld, self.stmt_inline(sub))
+            # `for v in gen(args): BODY` with a module-level generator: the generator's body runs in place, every
+            # `yield e` statement becomes `v = e; BODY` (same interleaving of reads and writes: a generator is lazy)
+            if isinstance(st, ast.For) and not st.orelse and isinstance(st.iter, ast.Call) and self.lookup(st.iter) is not None and isinstance(st.target, ast.Name):
+                g_ = self.lookup(st.iter)
+                gb = _body_wo_doc(g_)
+                ys = [n for b_ in gb for n in ast.walk(b_) if isinstance(n, (ast.Yield, ast.YieldFrom))]
+                y_stmts = [n for b_ in gb for n in ast.walk(b_) if isinstance(n, ast.Expr) and isinstance(n.value, ast.Yield) and n.value.value is not None]
+                body_ok = not any(isinstance(n, (ast.Break, ast.Continue, ast.Return, ast.Yield, ast.YieldFrom)) for b_ in st.body for n in ast.walk(b_))
+                gen_ok = ys and len(ys) == len(y_stmts) and not any(isinstance(n, ast.Return) and n.value is not None for b_ in gb for n in ast.walk(b_)) and not _has_nested_def(gb) and not g_.decorator_list
+                m_ = self.binding(g_, st.iter, gb) if gen_ok and body_ok else None
+                if m_ is not None and not (_stores(st.body) & ({p_.arg for p_ in g_.args.args} | _stores(gb))):
+                    new_ = self.rename_locals(g_, gb, m_)
+                    tgt_, loop_body = st.target, st.body
+
+                    class _Y(ast.NodeTransformer):
+                        def visit_Expr(self, n):
+                            if isinstance(n.value, ast.Yield) and n.value.value is not None:
+                                asg_ = ast.Assign(targets=[ast.Name(id=tgt_.id, ctx=ast.Store())], value=n.value.value)
+                                return [ast.copy_location(asg_, n)] + [copy.deepcopy(b_) for b_ in loop_body]
+                            return n
+
+                        def visit_Return(self, n):
+                            return n
+
+                    new2 = []
+                    for b_ in new_:
+                        r_ = _Y().visit(b_)
+                        new2.extend(r_ if isinstance(r_, list) else [r_])
+                    # a bare `return` inside the generator only ends the iteration: not supported (kept as a call)
+                    if not any(isinstance(n, ast.Return) for b_ in new2 for n in ast.walk(b_)):
+                        _relocate(new2, st)
+                        for b_ in new2:
+                            ast.fix_missing_locations(b_)
+                        out.extend(self.stmt_inline(new2))
+                        self.changed = True
+                        continue
             # `x = h(f.read(30))` where h uses its parameter more than once: the argument is evaluated once, into a temporary
             if isinstance(st, (ast.Expr, ast.Assign, ast.Return)) and isinstance(st.value, ast.Call) and self.lookup(st.value) is not None and not st.value.keywords and not any(isinstance(a_, ast.Starred) for a_ in st.value.args):
                 fn0 = self.lookup(st.value)
@@ -456,6 +492,31 @@ class _Divmod(ast.NodeTransformer):
             ast.fix_missing_locations(o)
         return out
 
+    def _loop(self, st: ast.For):
+        """`for v in divmod(x, c): BODY` is BODY with v = x // c followed by BODY with v = x % c (x a name, BODY without
+        break / continue / a store to v or x)."""
+        it = st.iter
+        if not (isinstance(st.target, ast.Name) and not st.orelse and isinstance(it, ast.Call) and isinstance(it.func, ast.Name) and it.func.id == "divmod" and len(it.args) == 2 and not it.keywords):
+            return None
+        x, c = it.args
+        if not (isinstance(x, ast.Name) and isinstance(c, ast.Constant) and isinstance(c.value, int) and not isinstance(c.value, bool) and c.value > 0):
+            return None
+        if any(isinstance(n, (ast.Break, ast.Continue)) or (isinstance(n, ast.Name) and isinstance(n.ctx, ast.Store) and n.id in (st.target.id, x.id)) for b in st.body for n in ast.walk(b)):
+            return None
+        k = c.value.bit_length() - 1
+        if c.value == 1 << k and k > 0:
+            parts = [ast.BinOp(left=copy.deepcopy(x), op=ast.RShift(), right=ast.Constant(value=k)), ast.BinOp(left=copy.deepcopy(x), op=ast.BitAnd(), right=ast.Constant(value=c.value - 1))]
+        else:
+            parts = [ast.BinOp(left=copy.deepcopy(x), op=ast.FloorDiv(), right=ast.Constant(value=c.value)), ast.BinOp(left=copy.deepcopy(x), op=ast.Mod(), right=ast.Constant(value=c.value))]
+        out = []
+        for pexp in parts:
+            for b in st.body:
+                nb = _Subst({st.target.id: pexp}).visit(copy.deepcopy(b))
+                ast.copy_location(nb, b)
+                ast.fix_missing_locations(nb)
+                out.append(nb)
+        return out
+
     def generic_visit(self, node):
         super().generic_visit(node)
         for fld in ("body", "orelse", "finalbody"):
@@ -463,7 +524,7 @@ class _Divmod(ast.NodeTransformer):
             if isinstance(seq, list) and seq and isinstance(seq[0], ast.stmt):
                 new = []
                 for st in seq:
-                    rep = self._split(st) if isinstance(st, ast.Assign) else None
+                    rep = self._split(st) if isinstance(st, ast.Assign) else (self._loop(st) if isinstance(st, ast.For) else None)
                     new.extend(rep if rep else [st])
                 setattr(node, fld, new)
         return node
@@ -484,6 +545,30 @@ class _Unroll(ast.NodeTransformer):
             ast.copy_location(out, n)
             ast.fix_missing_locations(out)
             return out
+        return n
+
+
+class _UnrollUnpack(ast.NodeTransformer):
+    """`a, b, c = (f(x) for x in (e1, e2, e3))` (or a list comprehension) is `a, b, c = f(e1), f(e2), f(e3)` when the
+    items are side-effect free names / attributes / constants: each target then has its own defining expression."""
+
+    def visit_Assign(self, n: ast.Assign):
+        self.generic_visit(n)
+        if len(n.targets) == 1 and isinstance(n.targets[0], (ast.Tuple, ast.List)) and isinstance(n.value, (ast.GeneratorExp, ast.ListComp)):
+            g = n.value.generators
+            if len(g) == 1 and not g[0].ifs and not g[0].is_async and isinstance(g[0].target, ast.Name) and isinstance(g[0].iter, (ast.Tuple, ast.List)) and len(g[0].iter.elts) == len(n.targets[0].elts):
+                items = g[0].iter.elts
+
+                def simple(e):
+                    while isinstance(e, ast.Attribute):
+                        e = e.value
+                    return isinstance(e, (ast.Name, ast.Constant))
+
+                if all(simple(e) for e in items):
+                    var = g[0].target.id
+                    elts = [_Subst({var: e}).visit(copy.deepcopy(n.value.elt)) for e in items]
+                    n.value = ast.copy_location(ast.Tuple(elts=elts, ctx=ast.Load()), n.value)
+                    ast.fix_missing_locations(n)
         return n
 
 
@@ -649,6 +734,7 @@ def normalise_module(tree: ast.Module) -> ast.Module:
     _expand_partials(t)
     t = _Divmod().visit(t)
     t = _Unroll().visit(t)
+    t = _UnrollUnpack().visit(t)
     for f_ in [f for f in ast.walk(t) if isinstance(f, ast.FunctionDef)]:
         _inline_list_temps(f_)
     # ---- module-level data re-stated inside the functions that read it
@@ -669,9 +755,19 @@ def normalise_module(tree: ast.Module) -> ast.Module:
         for fn in [f for f in t.body if isinstance(f, ast.FunctionDef)]:
             local_helpers = dict(helpers)
             local_helpers.pop(fn.name, None)
+            # a nested closure that is called exactly once, as a statement (`dump_row(width // 2)`), reads as its body there
+            for g_ in [n for n in fn.body if isinstance(n, ast.FunctionDef) and not n.decorator_list and n.name not in local_helpers]:
+                calls_ = [c for c in ast.walk(fn) if isinstance(c, ast.Call) and isinstance(c.func, ast.Name) and c.func.id == g_.name]
+                loads_ = [x for x in ast.walk(fn) if isinstance(x, ast.Name) and x.id == g_.name and isinstance(x.ctx, ast.Load)]
+                as_stmt = [st_ for st_ in ast.walk(fn) if isinstance(st_, ast.Expr) and st_.value in calls_]
+                inside_self = any(c in list(ast.walk(g_)) for c in calls_)
+                if len(calls_) == 1 and len(loads_) == 1 and len(as_stmt) == 1 and not inside_self and not any(isinstance(x, (ast.Yield, ast.YieldFrom, ast.Nonlocal, ast.Global)) for x in ast.walk(g_)) and any(isinstance(x, (ast.For, ast.While)) for x in ast.walk(g_)):
+                    local_helpers[g_.name] = g_
             inl = _Inliner(local_helpers)
             inl.counter = _ * 100
             fn.body = inl.stmt_inline(fn.body)
+            # an inlined once-called closure is gone
+            fn.body = [st_ for st_ in fn.body if not (isinstance(st_, ast.FunctionDef) and local_helpers.get(st_.name) is st_ and not any(isinstance(x, ast.Name) and x.id == st_.name and isinstance(x.ctx, ast.Load) for x in ast.walk(fn)))]
             # nested single-expression helpers (`def read_byte(): return ord(...)`) are inlined as expressions only;
             # multi-statement closures (`dump`, `debug`) are part of the shape the rules read and stay
             for n in ast.walk(fn):
